@@ -109,7 +109,10 @@ class World:
         self.sc = sc
         self.sub = {}
         for name, base in sc.get('subtypes', {}).items():
-            self.sub[name] = type(name, (SUBTYPE_BASES[base],), {})
+            ns = {}
+            if base == 'object':   # dumped through default_dump_with = str(o): keep it address-free
+                ns['__str__'] = (lambda n: (lambda self: '<%s>' % n))(name)
+            self.sub[name] = type(name, (SUBTYPE_BASES[base],), ns)
         self.cls = {}
         tmap = {'int': int, 'str': str, 'float': float, 'bool': bool, 'any': typing.Any,
                 'list_int': typing.List[int], 'list_any': typing.List[typing.Any], 'opt_int': typing.Optional[int],
@@ -300,7 +303,8 @@ def run_once(sc, schedule=None, named=None):
     world = World(sc)
     s = Sched(world, sc['threads'], schedule, named)
     status = s.run()
-    return {'status': status, 'outcomes': s.outcomes, 'trace': s.trace, 'decisions': s.decisions}
+    return {'status': status, 'outcomes': s.outcomes, 'trace': s.trace, 'decisions': s.decisions,
+            'schedule': [d[2] for d in s.decisions]}
 
 
 def run_sequential(sc, order):
@@ -395,6 +399,8 @@ def explore(sc, bound, max_runs, rng_seed=0):
                     if key not in seen:
                         seen.add(key)
                         todo.append(p)
+        del res['decisions']      # keep the result small: 'schedule' (the choices) is all a replay needs
+        res.pop('prefix', None)
     return {'runs': runs, 'truncated': truncated, 'pending': len(todo)}
 
 
